@@ -519,4 +519,224 @@ Proof.
       * apply Hpost; auto.
 Qed.
 
+
+(* ---------------- the validator's stack after an accepted entry ---------------- *)
+Lemma cvstep_shape stk it stk' : chain stk -> cvstep stk it = Some stk' ->
+  (exists l, In (removelast (ipath it), l) stk) /\
+  (forall d0 l0, In (d0, l0) stk' ->
+     (is_prefix d0 (removelast (ipath it)) /\ exists l, In (d0, l) stk)
+     \/ (d0 = ipath it /\ isdir it = true /\ del it = false)).
+Proof.
+  intros Hc Hs. unfold cvstep in Hs.
+  destruct (rev (ipath it)) as [|b rd] eqn:Er; [discriminate|].
+  pose proof (rev_decomp _ _ _ Er) as Hp. rewrite Hp, removelast_last.
+  remember (rev rd) as d eqn:Hdd. clear Hdd.
+  destruct (cpop d stk) as [|[d' l] rest] eqn:Ep; [discriminate|].
+  destruct (lex d' d) eqn:El; try discriminate. apply lex_eq in El. subst d'.
+  destruct (cmpb l b); try discriminate.
+  assert (Hin : In (d, l) stk) by (apply (pop_in d stk); rewrite Ep; left; reflexivity).
+  assert (Hch : chain ((d, l) :: rest)).
+  { pose proof (pop_chain d stk Hc) as H. rewrite Ep in H. apply H. discriminate. }
+  split; [exists l; exact Hin|].
+  assert (Hrest : forall d0 l0, In (d0, l0) ((d, b) :: rest) -> is_prefix d0 d /\ exists l', In (d0, l') stk).
+  { intros d0 l0 [E|H].
+    - inversion E; subst. split; [exists []; rewrite app_nil_r; reflexivity|exists l; exact Hin].
+    - destruct (chain_below _ _ _ Hch d0 l0 H) as [_ [y Hy]]. split.
+      + exists ([l0] ++ y). rewrite Hy, <- app_assoc. reflexivity.
+      + exists l0. apply (pop_in d stk). rewrite Ep. right. exact H. }
+  inversion Hs; subst stk'. intros d0 l0 H.
+  destruct (negb (del it) && isdir it) eqn:Eb.
+  - destruct H as [E|H]; [|left; apply (Hrest d0 l0 H)].
+    inversion E; subst. right. apply andb_true_iff in Eb. destruct Eb as [E1 E2].
+    apply negb_true_iff in E1. auto.
+  - left. apply (Hrest d0 l0 H).
+Qed.
+
+Lemma is_prefix_not_longer (a b : list bytes) x : is_prefix a b -> ~ is_prefix (b ++ [x]) a.
+Proof.
+  intros [y Hy] [z Hz]. subst b. rewrite <- !app_assoc in Hz.
+  assert (length a = length (a ++ y ++ [x] ++ z)) by (rewrite <- Hz; reflexivity).
+  rewrite !app_length in H. simpl in H. lia.
+Qed.
+
+Lemma In_map_ce (stk : list ventry) d l : In (d, l) (map ce stk) -> exists ds, In (ds, l) stk /\ pcomps ds = d.
+Proof.
+  intros H. apply in_map_iff in H. destruct H as ([ds l'] & E & Hin). unfold ce in E. simpl in E.
+  inversion E; subst. eauto.
+Qed.
+
+Lemma mem_bytes_In p l : mem_bytes p l = true -> In p l.
+Proof.
+  induction l as [|q l IH]; simpl; [discriminate|]. intros H. apply orb_true_iff in H. destruct H as [H|H].
+  - apply bytes_eqb_eq in H. left. auto.
+  - right. auto.
+Qed.
+
+Lemma accpaths_app acc it : accpaths (acc ++ [it]) = accpaths acc ++ [vpath it].
+Proof. unfold accpaths. rewrite map_app. reflexivity. Qed.
+
+(* paths accepted earlier are not at or below a later one, nor does one run through a temporary name *)
+Lemma earlier_not_below acc it q :
+  spec_ok (map citem_of acc) (citem_of it) -> In q (accpaths acc) -> ~ is_prefix (comps (vpath it)) (comps q).
+Proof.
+  intros (_ & Hlt & _) Hq Hp. unfold accpaths in Hq. apply in_map_iff in Hq. destruct Hq as (x & Ex & Hx).
+  assert (Hin : In (citem_of x) (map citem_of acc)) by (apply in_map; exact Hx).
+  pose proof (Hlt _ Hin) as H. cbn [ipath citem_of] in H. rewrite Ex in H.
+  pose proof (prefix_le _ _ Hp) as H2. rewrite lex_opp, H in H2. simpl in H2. congruence.
+Qed.
+
+
+(* ---------------- a STAT packet (ReceiveOpt.Merge: nothing of the old content is listed) ---------------- *)
+Lemma vstep_ok_path stk it stk' : vstep stk it = Some stk' -> ok_path (vpath it) = true.
+Proof.
+  intros H. destruct (ok_path (vpath it)) eqn:E; auto.
+  unfold vstep in H. rewrite (vsplit_bad _ E) in H. discriminate.
+Qed.
+
+Lemma In_accpaths_clean acc q :
+  Forall (fun it => ok_path (vpath it) = true /\ clean_path (vpath it)) acc -> In q (accpaths acc) ->
+  ok_path q = true /\ clean_path q.
+Proof.
+  intros H Hq. unfold accpaths in Hq. apply in_map_iff in Hq. destruct Hq as (x & <- & Hx).
+  rewrite Forall_forall in H. apply (H x Hx).
+Qed.
+
+(* the state after both validators accepted the entry: stack and seen list updated *)
+Lemma GBase_ext st st' acc it v' :
+  GBase st acc -> r_fs st' = r_fs st -> r_vstk st' = v' -> r_pipes st' = r_pipes st -> r_tmps st' = r_tmps st ->
+  (forall q, In q (r_seen st') -> In q (r_seen st) \/ q = vpath it) ->
+  R v' -> Inv (map ce v') (map citem_of (acc ++ [it])) ->
+  ok_path (vpath it) = true -> clean_path (vpath it) ->
+  GBase st' (acc ++ [it]).
+Proof.
+  intros G E1 E2 E3 E4 Hs HR HI Hok Hcl. constructor.
+  - rewrite E1. apply G.
+  - rewrite E2. exact HR.
+  - rewrite E2. exact HI.
+  - apply Forall_app. split; [apply G|]. constructor; auto.
+  - intros q Hq. rewrite accpaths_app. apply in_or_app. destruct (Hs q Hq) as [H|H].
+    + left. apply (g_seen st acc G q H).
+    + right. left. auto.
+  - intros id pp Hin. rewrite E3 in Hin. rewrite E1. destruct (g_pipes st acc G id pp Hin) as [A B]. split; auto.
+    rewrite accpaths_app. apply in_or_app. left. exact A.
+  - intros t Ht. rewrite E4 in Ht. apply (g_tmps st acc G t Ht).
+Qed.
+
+Lemma prefix_In (a b : list bytes) x : is_prefix a b -> In x a -> In x b.
+Proof. intros [y ->] H. apply in_or_app. left. exact H. Qed.
+
+Lemma removelast_In {A} (l : list A) x : In x (removelast l) -> In x l.
+Proof.
+  destruct l as [|a r] using rev_ind; [simpl; tauto|]. rewrite removelast_last. intros H. apply in_or_app. left. exact H.
+Qed.
+
+Definition MInv (st : rstate) (acc : list vitem) : Prop := GInv st acc /\ r_old st = [].
+
+Lemma MInv_stop (st st' : rstate) acc o :
+  GBase st' acc -> r_old st' = [] -> o <> Running -> MInv (set_out st' o) acc.
+Proof.
+  intros G Ho Hr. split; [|exact Ho]. split.
+  - apply (GBase_quiet st' _ acc b0 G); try (unfold b0; lia); simpl.
+    + apply step_same; [apply (g_wf st' acc G)|apply (g_next st' acc G)].
+    + repeat split.
+    + apply G.
+  - intros L. rewrite live_set_out in L; [discriminate|exact Hr].
+Qed.
+
+Lemma hl_step_seen seen s seen' : hl_step seen s = Some seen' ->
+  (forall q, In q seen' -> In q seen \/ (q = st_path s /\ solid s = true))
+  /\ (hardlink_branch s = true -> In (st_linkname s) seen).
+Proof.
+  unfold hl_step, hardlink_branch, solid, st_is_dir.
+  destruct (mode_is_dir (st_mode s)) eqn:Ed; cbn [orb negb andb].
+  - intros H. inversion H; subst. split; [auto|discriminate].
+  - destruct (mode_is_symlink (st_mode s)) eqn:Es; cbn [orb negb andb].
+    + intros H. inversion H; subst. split; [auto|]. rewrite andb_false_r. discriminate.
+    + destruct (is_nil (st_linkname s)) eqn:En; cbn [negb].
+      * intros H. inversion H; subst. split.
+        -- intros q [E|Hq]; auto. right. split; auto. rewrite orb_true_r. reflexivity.
+        -- rewrite andb_false_r. discriminate.
+      * destruct (mem_bytes (st_linkname s) seen) eqn:Em; intros H; inversion H; subst.
+        split; [auto|]. intros _. apply mem_bytes_In. exact Em.
+Qed.
+
+Lemma recv_stat_inv idx s st acc :
+  MInv st acc -> clean_path (st_path s) -> exists acc', MInv (recv_stat c idx s st) acc'.
+Proof.
+  intros [[G A] Hold] Hcl. unfold recv_stat.
+  set (files := if mode_is_regular (st_mode s) then bset (st_path s) (r_next st) (r_files st) else r_files st).
+  set (it := item_of s).
+  destruct (vstep (r_vstk st) it) as [v'|] eqn:Ev.
+  2:{ exists acc. apply (MInv_stop st); [|simpl; exact Hold|discriminate].
+      apply (GBase_quiet st _ acc b0 G); try (unfold b0; lia); simpl.
+      - apply step_same; [apply (g_wf st acc G)|apply (g_next st acc G)].
+      - repeat split.
+      - apply G. }
+  pose proof (vstep_ok_path _ _ _ Ev) as Hok. change (vpath it) with (st_path s) in Hok.
+  pose proof (vstep_refines (r_vstk st) it (g_R st acc G) Hok) as Hr. rewrite Ev in Hr. destruct Hr as [Hcv HR'].
+  destruct (cvstep_sound _ _ _ _ (g_vinv st acc G) (okitem_names it Hok) Hcv) as [Hspec HI'].
+  change [citem_of it] with (map citem_of [it]) in HI'. rewrite <- map_app in HI'.
+  destruct (cvstep_shape _ _ _ (inv_chain _ _ (g_vinv st acc G)) Hcv) as [Hparent Hshape].
+  cbn [ipath citem_of it item_of vpath] in Hparent, Hshape.
+  exists (acc ++ [it]).
+  assert (Hbase : forall st', r_fs st' = r_fs st -> r_vstk st' = v' -> r_pipes st' = r_pipes st -> r_tmps st' = r_tmps st ->
+             (forall q, In q (r_seen st') -> In q (r_seen st) \/ q = st_path s) -> GBase st' (acc ++ [it])).
+  { intros st' E1 E2 E3 E4 E5. apply (GBase_ext st st' acc it v'); auto. }
+  destruct (hl_step (r_seen st) s) as [seen'|] eqn:Eh.
+  2:{ apply (MInv_stop st); [|simpl; exact Hold|discriminate]. apply Hbase; simpl; auto. }
+  destruct (hl_step_seen _ _ _ Eh) as [Hseen' Hlinkseen].
+  set (st1 := set_valid (set_valid st (r_vstk st) (r_seen st) files (r_next st + 1)) v' seen' files (r_next st + 1)).
+  assert (G1 : GBase st1 (acc ++ [it])).
+  { apply Hbase; simpl; auto. intros q Hq. destruct (Hseen' q Hq) as [H|[H _]]; auto. }
+  destruct (is_dead st1 && negb (r_closed st1)); [apply (MInv_stop st1); [exact G1|simpl; exact Hold|discriminate]|].
+  destruct (r_closed st1); [apply (MInv_stop st1); [exact G1|simpl; exact Hold|discriminate]|].
+  assert (Eold : r_old st1 = []) by (simpl; exact Hold). rewrite Eold. cbn [diff_feed].
+  set (st2 := set_diff st1 [] []).
+  assert (G2 : GBase st2 (acc ++ [it])).
+  { apply (GBase_quiet st1 st2 _ b0 G1); try (unfold b0; lia); simpl.
+    - apply step_same; [apply (g_wf st acc G)|apply (g_next st acc G)].
+    - repeat split.
+    - apply G1. }
+  assert (Ecs : comps (st_path s) = removelast (comps (st_path s)) ++ [last (comps (st_path s)) []]) by (apply split_comps; auto).
+  assert (Hpre : live st2 = true -> change_pre st2 (st_path s) s (acc ++ [it])).
+  { intros L. assert (L0 : live st = true) by exact L. destruct (A L0) as [A1 A2 A3].
+    unfold change_pre. cbn [r_fs st2 st1 set_diff set_valid r_pipes].
+    split; [exact Hok|]. split; [exact Hcl|]. split.
+    - destruct Hparent as [l Hl]. apply In_map_ce in Hl. destruct Hl as (ds & Hin & Eds).
+      rewrite <- Eds. apply (A2 ds l Hin).
+    - split; [exact A1|]. split.
+      + intros Hhb. pose proof (Hlinkseen Hhb) as Hin.
+        destruct (In_accpaths_clean acc _ (g_acc st acc G) (g_seen st acc G _ Hin)) as [Hokl _].
+        split; auto. pose proof (A3 _ Hin) as Hs. rewrite (split_comps _ Hokl) in Hs. apply safe_prefix in Hs. exact Hs.
+      + split.
+        * intros id pp Hin. apply (earlier_not_below acc it (pp_path pp) Hspec). apply (g_pipes st acc G id pp Hin).
+        * rewrite accpaths_app. apply in_or_app. right. left. reflexivity. }
+  destruct (apply_change_inv idx 0 (st_path s) s st2 (acc ++ [it]) G2 Hpre) as (G3 & (F1 & F2 & F3 & _) & Hpost).
+  set (st3 := apply_change c idx 0 (st_path s) s st2) in *.
+  split; [|rewrite F3; reflexivity]. split; [exact G3|].
+  intros L3. destruct (Hpost L3) as (L2 & P1 & P2 & P3).
+  assert (L0 : live st = true) by exact L2. destruct (A L0) as [A1 A2 A3].
+  assert (Hkeep : forall q, In q (accpaths acc) -> safe (r_fs st) D (comps q) -> safe (r_fs st3) D (comps q)).
+  { intros q Hq Hs. apply (P2 (comps q)); auto.
+    - apply (earlier_not_below acc it q Hspec Hq).
+    - apply (In_accpaths_clean acc q (g_acc st acc G) Hq). }
+  constructor.
+  - exact P1.
+  - intros ds l Hin. rewrite F1 in Hin. cbn [r_vstk st2 st1 set_diff set_valid] in Hin.
+    assert (Hin' : In (pcomps ds, l) (map ce v')).
+    { apply in_map_iff. exists (ds, l). split; auto. }
+    destruct (Hshape _ _ Hin') as [(Hp & l' & Hl')|(E1 & E2 & _)].
+    + apply In_map_ce in Hl'. destruct Hl' as (ds' & Hin2 & Eds).
+      apply (P2 (pcomps ds)).
+      * rewrite Ecs. apply is_prefix_not_longer. exact Hp.
+      * intros t Ht Hint. apply (Hcl t Ht). apply removelast_In. apply (prefix_In _ _ t Hp Hint).
+      * rewrite <- Eds. apply (A2 ds' l' Hin2).
+    + rewrite E1. apply P3; [discriminate|]. unfold solid. cbn [isdir citem_of it item_of visdir] in E2.
+      unfold st_is_dir in E2. rewrite E2. reflexivity.
+  - intros q Hq. rewrite F2 in Hq. cbn [r_seen st2 st1 set_diff set_valid] in Hq.
+    destruct (Hseen' q Hq) as [H|[-> Hsol]].
+    + apply Hkeep; [apply (g_seen st acc G q H)|apply (A3 q H)].
+    + apply P3; [discriminate|exact Hsol].
+Qed.
+
 End Recv.
